@@ -3,9 +3,18 @@ use crate::{
     base::{ResourceType, DEFAULT_MAX_RESOURCE_AMOUNT, TOTAL_IN_BOUND_RESOURCE_NAME},
     logging,
 };
+#[cfg(not(sentinel_verif))]
 use lazy_static::lazy_static;
+#[cfg(sentinel_verif)]
+use sentinel_verif_rt::lazy_static;
+#[cfg(not(sentinel_verif))]
 use std::collections::HashMap;
+#[cfg(sentinel_verif)]
+use sentinel_verif_rt::collections::HashMap;
+#[cfg(not(sentinel_verif))]
 use std::sync::{Arc, RwLock};
+#[cfg(sentinel_verif)]
+use sentinel_verif_rt::sync::{Arc, RwLock};
 
 type ResourceNodeMap = HashMap<String, Arc<ResourceNode>>;
 
